@@ -33,6 +33,14 @@ Expected(e) ==
     [] e.op = "agn"         ->
          /\ e.clef = ClefText(e.k, e.mark) /\ e.inp = Spell(P(e))
          /\ e.ok /\ e.out = Agnostic(e.k, P(e))
+    [] e.op = "objstep"     ->                                \* one step of a history on ONE pitch object (MC_PitchObj)
+         LET p == P(e) IN
+         /\ e.name = NameStr(p.l, p.a) /\ e.oct = p.o          \* the object is what the setters made it - and nothing else changed it
+         /\ (e.kind = "chroma" => e.val = Chroma(p))
+         /\ (e.kind = "export" => e.out = Spell(p))
+         /\ (e.kind = "transpose" =>
+               LET q == RefT(p, IvOfName[e.iv], e.up) IN
+               Spellable(q) => (e.ok /\ e.rname = NameStr(q.l, q.a) /\ e.roct = q.o))
     \* ---- beyond the listed properties (bin/extras) ----
     [] e.op = "american_out" ->                               \* kern in, American out
          LET p == P(e)  q == RefT(p, IvOfName[e.iv], e.up) IN Spellable(q) => (e.ok /\ e.out = AmericanSpell(q))
